@@ -23,6 +23,11 @@
  *                                     on HANDLER_COMEBACK like http_response_handler does
  *                                     -> served <target> <n>|status <code> <n>|failed <n>
  *                                     (an unset authority "~" makes ${url.authority} the server name "server.name")
+ *   nf <kind> <handler> <repeat_idx> <rules> <target> <cond> <scheme> <authority> <port> <trace>
+ *                                     mod_rewrite_physical (url.rewrite[-repeat]-if-not-file) with
+ *                                     r->physical.path naming an object of the given kind in a scratch
+ *                                     tree (reg dir dirslash missing missingslash lnreg lndir lndirslash
+ *                                     lndangling below regslash fifo) -> go|comeback <target>|failed|status <c>
  *   alias <nocase> <k:v;..> <basedir> <path>   mod_alias_remap -> 403|<path> <basedir>
  *   svhost <sroot> <host|~> <droot|~>          build_doc_root_path (mod_simple_vhost)
  *   evhost <pattern> <authority>               mod_evhost_parse_pattern + _build_doc_root_path
@@ -32,6 +37,8 @@
 #include "harness_common.h"
 #include <fcntl.h>
 #include <unistd.h>
+#include <sys/stat.h>
+#include <sys/types.h>
 #include "base.h"
 #include "buffer.h"
 #include "burl.h"
@@ -484,6 +491,87 @@ out:
     rules_free(&R); cond_free(&cond);
 }
 
+/* scratch tree for the filesystem kinds mod_rewrite_physical distinguishes */
+static char fs_root[256];
+static void fs_cleanup(void) {
+    if (!fs_root[0]) return;
+    static const char *names[] = {"dir/inner", "reg", "lnreg", "lndir", "lndangling", "fifo", "dir", NULL};
+    char p[512];
+    for (int i = 0; names[i]; ++i) {
+        snprintf(p, sizeof(p), "%s/%s", fs_root, names[i]);
+        if (0 != unlink(p)) rmdir(p);
+    }
+    rmdir(fs_root);
+}
+static int fs_setup(void) {
+    if (fs_root[0]) return 1;
+    const char *tmp = getenv("TMPDIR");
+    snprintf(fs_root, sizeof(fs_root), "%s/ltverif.kvfs.XXXXXX", (tmp && *tmp) ? tmp : "/tmp");
+    if (NULL == mkdtemp(fs_root)) { fs_root[0] = 0; return 0; }
+    atexit(fs_cleanup);
+    char p[512], q[512];
+    snprintf(p, sizeof(p), "%s/reg", fs_root);
+    FILE *f = fopen(p, "w"); if (!f) return 0; fputs("x", f); fclose(f);
+    snprintf(p, sizeof(p), "%s/dir", fs_root); if (mkdir(p, 0700)) return 0;
+    snprintf(p, sizeof(p), "%s/dir/inner", fs_root); f = fopen(p, "w"); if (f) fclose(f);
+    snprintf(q, sizeof(q), "%s/lnreg", fs_root); if (symlink("reg", q)) return 0;
+    snprintf(q, sizeof(q), "%s/lndir", fs_root); if (symlink("dir", q)) return 0;
+    snprintf(q, sizeof(q), "%s/lndangling", fs_root); if (symlink("nowhere", q)) return 0;
+    snprintf(q, sizeof(q), "%s/fifo", fs_root); if (mkfifo(q, 0600)) return 0;
+    return 1;
+}
+static int fs_path(const char *kind, buffer *out) {
+    static const char *map[][2] = {{"reg", "/reg"}, {"dir", "/dir"}, {"dirslash", "/dir/"}, {"missing", "/none"},
+      {"missingslash", "/none/"}, {"lnreg", "/lnreg"}, {"lndir", "/lndir"}, {"lndirslash", "/lndir/"},
+      {"lndangling", "/lndangling"}, {"below", "/reg/extra"}, {"regslash", "/reg/"}, {"fifo", "/fifo"}, {NULL, NULL}};
+    for (int i = 0; map[i][0]; ++i)
+        if (0 == strcmp(kind, map[i][0])) {
+            buffer_copy_string(out, fs_root);
+            buffer_append_string(out, map[i][1]);
+            return 1;
+        }
+    return 0;
+}
+
+static void op_nf(void) {
+    /* nf <kind> <handler> <ridx> <rules> <target> <cond> <scheme> <authority> <port> <trace> */
+    rules_t R; cond_t cond;
+    memset(&cond, 0, sizeof(cond));
+    int pr = parse_rules(ltv_tok[4], &R);
+    if (pr < 0) { puts("badpat"); goto out; }
+    if (!pr || !parse_cond(ltv_tok[6], &cond) || !fs_setup()) { puts("bad-op"); goto out; }
+    {
+        rw_plugin_data p; memset(&p, 0, sizeof(p));
+        p.id = 1;
+        p.defaults.rewrite_NF = R.kvb;
+        R.kvb->x0 = 1;
+        R.kvb->x1 = atoi(ltv_tok[3]);
+        r->cond_match[0] = cond.present ? &cond.cache : NULL;
+        r->plugin_ctx[p.id] = NULL;
+        const int sport = scheme_port_of(ltv_tok[7]);
+        fixture_request(ltv_tok[7], ltv_tok[8], atoi(ltv_tok[9]), 0);
+        buf_set_hex(&r->target, ltv_tok[5]);
+        int status = http_request_parse_target(r, sport);
+        if (status) {
+            if (ltv_tok[10][0] == '?' && ltv_tok[10][1] == 0) puts("trace ."); else printf("status %d\n", status);
+            goto out;
+        }
+        if (!check_trace(&R, &r->target, ltv_tok[10])) goto out;
+        if (!fs_path(ltv_tok[1], &r->physical.path)) { puts("bad-op"); goto out; }
+        static plugin dummy_handler;
+        r->handler_module = (ltv_tok[2][0] == '1') ? &dummy_handler : NULL;
+        handler_t rc = mod_rewrite_physical(r, &p);
+        r->handler_module = NULL;
+        if (rc == HANDLER_GO_ON) puts("go");
+        else if (rc == HANDLER_COMEBACK) { fputs("comeback ", stdout); put_hex_buf(&r->target); fputc('\n', stdout); }
+        else puts("failed");
+        r->plugin_ctx[p.id] = NULL;
+        buffer_clear(&r->physical.path);
+    }
+out:
+    rules_free(&R); cond_free(&cond);
+}
+
 static void op_alias(void) {
     /* alias <nocase> <k:v;..> <basedir> <path> */
     array *a = array_init(4);
@@ -534,10 +622,12 @@ static void op_evhost(void) {
     if (NULL == pieces) puts("badpat");
     else {
         buffer *b = buffer_init();
-        array *split_vals = array_init(8);
+        /* like plugin_data.split_vals: one array reused for every request of the process, so that
+         * state leaking from one host to the next shows up as a disagreement */
+        static array *split_vals;
+        if (NULL == split_vals) split_vals = array_init(8);
         mod_evhost_build_doc_root_path(b, split_vals, auth, pieces);
         put_hex_buf(b); fputc('\n', stdout);
-        array_free(split_vals);
         buffer_free(b);
         mod_evhost_free_path_pieces(pieces);
     }
@@ -558,6 +648,7 @@ int main(void) {
         else if (0 == strcmp(op, "proc") && ltv_ntok == 6) op_proc();
         else if (0 == strcmp(op, "redir") && ltv_ntok == 8) op_redir();
         else if (0 == strcmp(op, "rw") && ltv_ntok == 10) op_rw();
+        else if (0 == strcmp(op, "nf") && ltv_ntok == 11) op_nf();
         else if (0 == strcmp(op, "alias") && ltv_ntok == 5) op_alias();
         else if (0 == strcmp(op, "svhost") && ltv_ntok == 4) op_svhost();
         else if (0 == strcmp(op, "evhost") && ltv_ntok == 3) op_evhost();
